@@ -17,9 +17,10 @@ WRONG = base64.b64encode(bytes.fromhex("00112233445566778899aabbccddee00")).deco
 PROD_S = 0x1000000
 T = 4
 
-MODES = ["none", "e", "d", "v", "V", "h", "e+d", "v+h", "cluster-en", "cluster-edv", "long-encode", "long-decode"]
+MODES = ["none", "e", "d", "v", "V", "h", "e+d", "v+h", "cluster-en", "cluster-edv", "long-encode", "long-decode"] + \
+        ["cluster2-" + a + b for a in "edvhV" for b in "edvhV" if a != b]  # every two-letter cluster of two different mode letters (-de, -he, ...): two modes
 INS = ["absent", "file", "missing", "path123", "path300", "valid", "tampered", "empty", "directory", "devnull", "fifo", "name251", "wencdir", "wencexists"]
-OUTS = ["absent", "writable", "unwritable", "existing"]
+OUTS = ["absent", "writable", "unwritable", "existing", "via-no"]  # via-no: `-no PATH` = -n and -o PATH in one cluster
 KEYS = ["absent", "right", "wrong", "len23", "nopad", "badsym", "len25", "onepad", "hibyte"]
 CMODES = ["absent", "0", "1", "2", "3", "4", "5", "-1", "256", "abc", "127"]
 HMODES = ["absent", "0", "1", "2", "3", "abc"]
@@ -66,7 +67,7 @@ def make_argv(vec, fx, rundir):
     a = []
     info = {"in": None, "out": None, "key": None, "mode": None}
     m = {"none": [], "e": ["-e"], "d": ["-d"], "v": ["-v"], "V": ["-V"], "h": ["-h"], "e+d": ["-e", "-d"], "v+h": ["-v", "-h"],
-         "cluster-en": ["-en"], "cluster-edv": ["-edv"], "long-encode": ["--encode"], "long-decode": ["--decode"]}[mode]
+         "cluster-en": ["-en"], "cluster-edv": ["-edv"], "long-encode": ["--encode"], "long-decode": ["--decode"]}.get(mode) if not mode.startswith("cluster2-") else ["-" + mode[9:]]
     a += m
     info["mode"] = {"e": "e", "d": "d", "v": "v", "V": "V", "h": "h", "cluster-en": "e", "long-encode": "e", "long-decode": "d"}.get(mode)
     if inn != "absent":
@@ -112,10 +113,10 @@ def make_argv(vec, fx, rundir):
         a += ["-i", src]
         info["in"] = src
     if out != "absent":
-        o = os.path.join(rundir, "out.bin") if out in ("writable", "existing") else os.path.join(rundir, "no-such-dir", "out.bin")
+        o = os.path.join(rundir, "out.bin") if out in ("writable", "existing", "via-no") else os.path.join(rundir, "no-such-dir", "out.bin")
         if out == "existing":  # the output path already holds a longer file (an earlier result, somebody else's data)
             open(o, "wb").write(bytes((i * 13 + 7) % 256 for i in range(5000)))
-        a += ["-o", o]
+        a += ["-no" if out == "via-no" else "-o", o]
         info["out"] = o
     if key != "absent":
         k = {"right": KEYTXT, "wrong": WRONG, "len23": KEYTXT[:23], "nopad": KEYTXT[:22] + "AA", "badsym": KEYTXT[:5] + "*" + KEYTXT[6:], "len25": KEYTXT + "A",
@@ -151,7 +152,7 @@ def make_argv(vec, fx, rundir):
 
 def well_formed(vec):
     mode, inn, out, key, cm, hm, noecho, extra = vec
-    if mode in ("none", "e+d", "v+h", "cluster-edv"):
+    if mode in ("none", "e+d", "v+h", "cluster-edv") or mode.startswith("cluster2-"):
         return False
     if extra in ("unknown", "missingarg"):
         return False
@@ -207,7 +208,7 @@ def must_succeed(vec):
     if cm in ("-1", "256", "abc", "127", "5") or hm in ("3", "abc"):
         return False
     if m == "e":
-        return inn in ("file", "empty", "valid", "tampered", "wencexists") or (inn in ("name251", "wencdir") and out in ("writable", "existing"))
+        return inn in ("file", "empty", "valid", "tampered", "wencexists") or (inn in ("name251", "wencdir") and out in ("writable", "existing", "via-no"))
     if m in ("d", "v"):
         return inn == "valid" and key == "right"
     return False
@@ -297,7 +298,7 @@ def run_vector(exe, reftool, fx, vec, idx, workroot):
         ok = (rc == 0)
         wf = well_formed(vec)
         # (with -n/--no_echo the user asked for silence: whether a failure is then still announced is a don't-care)
-        dontcare = vec[1] in ("directory", "devnull", "fifo") or vec[6] == "n" or vec[0] in ("cluster-en",)
+        dontcare = vec[1] in ("directory", "devnull", "fifo") or vec[6] == "n" or vec[0] in ("cluster-en",) or vec[2] == "via-no"
         if ok:
             GOOD_LINES.update(norm_lines(so + "\n" + se))
         elif not dontcare:  # only failing runs are kept (the full product has millions of vectors)
@@ -426,7 +427,7 @@ def c12_cli(tier):
                         "input byte-identical afterwards, -v creates nothing, -v and -d -o agree"}, out
 
 
-def io_fault_pass(exe, reftool, fx, workroot, tier):
+def io_fault_pass(exe, reftool, fx, workroot, tier, only_wrong_key=False):
     """Every point at which writing the output can start to fail (the environment's answer deviates once from the default "write
     succeeds"): the real binary runs with RLIMIT_FSIZE = N for EVERY N below the size of the complete output (the write that crosses the
     limit is cut short, every later one fails with EFBIG; SIGXFSZ ignored, as under a shell with `trap '' XFSZ`), plus an output device
@@ -498,7 +499,7 @@ def io_fault_pass(exe, reftool, fx, workroot, tier):
         sizes.append(os.path.getsize(outp))
         shutil.rmtree(wd, ignore_errors=True)
     jobs = []
-    for oi, (kind, src, tmpl) in enumerate(ops):
+    for oi, (kind, src, tmpl) in enumerate(ops if not only_wrong_key else []):
         full = sizes[oi]
         if full <= 400 or tier == "thorough":
             limits = list(range(0, full, 1 if full <= 400 else 16))
@@ -520,6 +521,8 @@ def io_fault_pass(exe, reftool, fx, workroot, tier):
                 ("d", fx.valid, ["-d", "-i", "IN", "-o", "OUT", "-k", WRONG], "IN", False),
                 ("v", fx.valid, ["-v", "-i", "IN", "-k", WRONG], "IN", False)]
         for ri, (kind, src, tmpl, which, rightkey) in enumerate(rops):
+            if only_wrong_key and rightkey:
+                continue
             wd = os.path.join(root, "rprobe%d" % ri)
             os.makedirs(wd, exist_ok=True)
             inp, outp = os.path.join(wd, os.path.basename(src)), os.path.join(wd, "out.bin")
@@ -579,9 +582,24 @@ def io_fault_pass(exe, reftool, fx, workroot, tier):
                              "oracle: terminates, no crash, exit 0 only with the complete correct result, a diagnostic otherwise"}, viol
 
 
+def c06_cli(tier):
+    """C06 under read failures (post pass of the C06 check): `-d` and `-v` with a WRONG key while the k-th read(2) of the input fails with
+    EIO (every k, transient and persistent): never exit 0, never any output. returns (coverage, violations)"""
+    exe, reftool = build_tools()
+    root = os.path.join("/dev/shm" if os.path.isdir("/dev/shm") else c.BUILD, "wencry-c06cli-%d" % os.getpid())
+    shutil.rmtree(root, ignore_errors=True)
+    os.makedirs(root)
+    try:
+        fx = Fixture(os.path.join(root, "fx"), reftool)
+        cov, viol = io_fault_pass(exe, reftool, fx, root, tier, only_wrong_key=True)
+    finally:
+        shutil.rmtree(root, ignore_errors=True)
+    return {"cli_read_failure_points": cov.get("io_fault_read_failure_points", 0), "cli_read_failure_note": cov.get("io_fault_read_note", cov.get("io_fault_pass", ""))}, viol
+
+
 def first_defect(vec):
     mode, inn, out, key, cm, hm, noecho, extra = vec
-    if mode in ("none", "e+d", "v+h", "cluster-edv"):
+    if mode in ("none", "e+d", "v+h", "cluster-edv") or mode.startswith("cluster2-"):
         return "mode-" + mode
     if extra in ("unknown", "missingarg"):
         return "extra-" + extra
